@@ -113,7 +113,14 @@ func (c *Ctx) Pick(q, t int) int {
 }
 
 func (c *Ctx) loadKnown() {
-	b, err := os.ReadFile(filepath.Join(c.Verif, "known-findings.json"))
+	c.loadKnownFile(filepath.Join(c.Verif, "known-findings.json"))
+	if extra := os.Getenv("VF_KNOWN_EXTRA"); extra != "" { // development aid only
+		c.loadKnownFile(extra)
+	}
+}
+
+func (c *Ctx) loadKnownFile(path string) {
+	b, err := os.ReadFile(path)
 	if err != nil {
 		return
 	}
